@@ -23,6 +23,7 @@ RULE = ('reference-encoded images of each format that has both reader '
         'the property ("that both accept") and are counted separately. '
         'non-trivial = both readers accepted; distinct = digest of the spec.')
 RULE += (' Also: images whose header carries nz=0, readers called without a shape, a gridded decoy file with the species in another order read first.')
+RULE += (' For the formats whose size does not tell steps from layers (height/pressure, one-3D family) the path holds, just before, another valid file of the same grid, start and size with steps and layers exchanged, read by both readers.')
 ASSUMPTIONS = [
     'termination is decided on logical steps: more than 2,000,000 backward '
     'jumps inside the library for an image of at most a few kilobytes is '
